@@ -52,8 +52,8 @@ PLANS = {
         "floor": 2000,
     },
     "C12": {
-        "quick": [sess("remount", "C12", 1200, 40, args={"shadow": 1})],
-        "thorough": [sess("remount", "C12", 5000, 300, args={"shadow": 1})],
+        "quick": [sess("remount", "C12", 1200, 40, args={"shadow": 1, "statusbits": 1})],
+        "thorough": [sess("remount", "C12", 5000, 300, args={"shadow": 1, "statusbits": 1})],
         "floor": 2000,
     },
 }
